@@ -215,50 +215,89 @@ def project(text):
 
 
 # ------------------------------------------------------------------------------------------------------
-# Lexer for spec/ShExCDoc.tla: the token stream of the emitted text (comments dropped), ShExC lexical rules
-# for the subset sheXer emits.  Token = [type, text]
-_TOKEN = re.compile(r'''
-      (?P<ws>\s+)
-    | (?P<comment>\#[^\n]*)
-    | (?P<annot>//)
-    | (?P<iriref><[^<>"{}|^`\\\x00-\x20]*>)
-    | (?P<string>"(?:[^"\\\n]|\\.)*")
-    | (?P<card>\{\d+\})
-    | (?P<punct>[{}\[\];@^~*+?])
-    | (?P<pname>[A-Za-z_][A-Za-z0-9_.-]*)?:(?P<local>(?:[A-Za-z0-9_:]|%[0-9A-Fa-f]{2})(?:[A-Za-z0-9_.:-]|%[0-9A-Fa-f]{2})*)?
-    | (?P<word>[A-Za-z][A-Za-z0-9_]*)
-''', re.X)
+# Lexer for spec/ShExCDoc.tla: the token stream of the emitted text (comments dropped), by the ShExC lexical
+# rules for the subset sheXer emits.  Token = {"t": type, "a": str, "b": str}
+#   PREFIX-style keywords and node kinds are WORD tokens; IRIREF: a = the IRI; PNAME_NS: a = prefix;
+#   PNAME_LN: a = prefix, b = local part; STRING: a = text; CARD: a = "{n}"; punctuation: t = the character
+_NAME_CHARS = set("ABCDEFGHIJKLMNOPQRSTUVWXYZabcdefghijklmnopqrstuvwxyz0123456789_.:%-")
+_PUNCT = set("}[];@^~*+?")
+
+
+def _local_ok(loc):
+    if loc == "":
+        return True
+    if loc.endswith(".") or loc.startswith(("-", ".")):
+        return False
+    i = 0
+    while i < len(loc):
+        if loc[i] == "%":
+            if not re.fullmatch(r'[0-9A-Fa-f]{2}', loc[i + 1:i + 3]):
+                return False
+            i += 3
+        else:
+            i += 1
+    return True
 
 
 def lex(text):
+    """-> (tokens, error position or -1)"""
     toks = []
     i = 0
-    while i < len(text):
-        m = _TOKEN.match(text, i)
-        if not m or m.end() == i:
-            return toks, i          # lexical error position
-        i = m.end()
-        g = m.lastgroup
-        if m.group("ws") is not None or m.group("comment") is not None:
-            continue
-        t = m.group(0)
-        if m.group("annot") is not None:
-            toks.append(["ANNOT", t])
-        elif m.group("iriref") is not None:
-            toks.append(["IRIREF", t[1:-1]])
-        elif m.group("string") is not None:
-            toks.append(["STRING", t])
-        elif m.group("card") is not None:
-            toks.append(["CARD", t])
-        elif m.group("punct") is not None:
-            toks.append([t, t])
-        elif m.group("word") is not None:
-            toks.append(["WORD", t])
+    n = len(text)
+    while i < n:
+        ch = text[i]
+        if ch in " \t\r\n":
+            i += 1
+        elif ch == "#":
+            while i < n and text[i] != "\n":
+                i += 1
+        elif ch == "<":
+            j = text.find(">", i)
+            if j == -1 or re.search(r'[\s<"{}|^`\\]', text[i + 1:j]):
+                return toks, i
+            toks.append({"t": "IRIREF", "a": text[i + 1:j], "b": ""})
+            i = j + 1
+        elif ch == '"':
+            j = i + 1
+            while j < n and text[j] != '"':
+                if text[j] == "\\":
+                    j += 1
+                if j < n and text[j] == "\n":
+                    return toks, i
+                j += 1
+            if j >= n:
+                return toks, i
+            toks.append({"t": "STRING", "a": text[i:j + 1], "b": ""})
+            i = j + 1
+        elif text.startswith("//", i):
+            toks.append({"t": "ANNOT", "a": "//", "b": ""})
+            i += 2
+        elif ch == "{":
+            m = re.compile(r'\{\d+\}').match(text, i)
+            if m:
+                toks.append({"t": "CARD", "a": m.group(0), "b": ""})
+                i = m.end()
+            else:
+                toks.append({"t": "{", "a": "{", "b": ""})
+                i += 1
+        elif ch in _PUNCT:
+            toks.append({"t": ch, "a": ch, "b": ""})
+            i += 1
+        elif ch in _NAME_CHARS:
+            j = i
+            while j < n and text[j] in _NAME_CHARS:
+                j += 1
+            word = text[i:j]
+            if ":" in word:
+                pre, loc = word.split(":", 1)
+                if not re.fullmatch(r'(?:[A-Za-z](?:[A-Za-z0-9_.-]*[A-Za-z0-9_-])?)?', pre) or not _local_ok(loc):
+                    return toks, i
+                toks.append({"t": "PNAME_NS" if loc == "" else "PNAME_LN", "a": pre, "b": loc})
+            else:
+                if not re.fullmatch(r'[A-Za-z][A-Za-z0-9_]*', word):
+                    return toks, i
+                toks.append({"t": "WORD", "a": word, "b": ""})
+            i = j
         else:
-            # prefixed name: pname? ':' local?
-            pre = m.group("pname") or ""
-            loc = m.group("local")
-            if loc is not None and loc.endswith("."):
-                return toks, m.start()
-            toks.append(["PNAME_NS" if loc is None else "PNAME_LN", pre + ":" + (loc or "")])
+            return toks, i
     return toks, -1
